@@ -5,15 +5,18 @@
   do_wordcount (ASCII), the unit selection of do_filesizeformat; the try/except structure of do_int / do_float over
   Gen/ConvertTable.lean, which is regenerated from filters.py and re-measured on every run).
 
-  Every theorem is for ALL strings / arguments (no bounds) except `convert_total_except_known` and
+  Every theorem is for ALL strings / arguments (no bounds) except `convert_total`, `escapingRows_nil` and
   `convert_default_on_failure`, which are finite-table theorems over the regenerated Gen data (re-proved by `decide`
   on every run, so a change of the except clauses that lets another class escape breaks the proof).
 
   wordwrap is proved only RELATIVE to textwrap's contract (`WrapKeepsText`, `WrapFits` are hypotheses; the harness
   evaluates them on textwrap's actual output for every generated case).
 
+  striptags is modelled for text without `&` (markupsafe's two cut loops + whitespace collapse; `html.unescape` is not
+  modelled); format for positional arguments and `%s` / `%d` / `%%` (number rendering is a parameter).
+
   Not here (Python stdlib behaviour, correspondence-only in harness/props/c23.py): title, capitalize, upper, lower,
-  urlencode, round, striptags, format.
+  urlencode, round, entity unescaping of striptags, other printf directives and keyword arguments of format.
 -/
 import JinjaV.Lemmas.FiltStr
 
@@ -652,6 +655,343 @@ example : WrapKeepsText (fun l => l.map fun c => [c]) ∧ WrapFits (fun l => l.m
     obtain ⟨c, _, rfl⟩ := List.mem_map.mp hl
     exact Nat.le_refl _
 
+/-! ### striptags -/
+
+/-- the loop ends only when nothing more can be cut -/
+theorem stripAll_fixpoint (opn close s : Str) (hc : close ≠ []) :
+    stripStep opn close (stripAll opn close s) = none := by
+  fun_induction stripAll opn close s with
+  | case1 s h => exact h
+  | case2 s s' h hlt ih => exact ih
+  | case3 s s' h hlt => exact absurd (stripStep_shorter opn close s s' hc h) hlt
+
+/-- only deletions: the result is a subsequence of the text -/
+theorem stripAll_sublist (opn close s : Str) : (stripAll opn close s).Sublist s := by
+  fun_induction stripAll opn close s with
+  | case1 s h => exact List.Sublist.refl _
+  | case2 s s' h hlt ih =>
+    obtain ⟨a, m, b, hs, hs', _, _⟩ := stripStep_spec opn close s s' h
+    refine ih.trans ?_
+    rw [hs, hs', List.append_assoc]
+    exact List.Sublist.append (List.Sublist.refl _) (List.sublist_append_right _ _)
+  | case3 s s' h hlt => exact List.Sublist.refl _
+
+/-- one tag: the leftmost `<` and everything up to the first `>` after it is deleted, and the loop goes on -/
+theorem stripAll_tag_step (a t b : Str) (ha : '<' ∉ a) (ht : '>' ∉ t) :
+    stripAll ['<'] ['>'] (a ++ '<' :: t ++ '>' :: b) = stripAll ['<'] ['>'] (a ++ b) := by
+  rw [stripAll_unfold _ _ _ (by simp)]
+  have : stripStep ['<'] ['>'] (a ++ '<' :: t ++ '>' :: b) = some (a ++ b) := by
+    unfold stripStep
+    have e1 : a ++ '<' :: t ++ '>' :: b = a ++ '<' :: (t ++ '>' :: b) := by simp
+    rw [e1, splitFirst_char_eq '<' a _ ha]
+    simp only [List.drop_left']
+    have hlt : '>' ∉ '<' :: t := by
+      intro hm; rcases List.mem_cons.mp hm with e | hm
+      · cases e
+      · exact ht hm
+    have e2 : '<' :: (t ++ '>' :: b) = ('<' :: t) ++ '>' :: b := rfl
+    rw [e2, splitFirst_char_eq '>' _ _ hlt]
+  rw [this]
+
+/-- text in which no `<` is followed by a `>` is left alone (in particular text without `<`) -/
+theorem stripAll_tag_free (s : Str) (h : ∀ x y, s = x ++ '<' :: y → '>' ∉ y) : stripAll ['<'] ['>'] s = s := by
+  rw [stripAll_unfold _ _ _ (by simp)]
+  cases hs : stripStep ['<'] ['>'] s with
+  | none => rfl
+  | some s' =>
+    exfalso
+    unfold stripStep at hs
+    cases h1 : splitFirst ['<'] s with
+    | none => rw [h1] at hs; cases hs
+    | some ax =>
+      obtain ⟨a, x⟩ := ax
+      rw [h1] at hs
+      simp only at hs
+      obtain ⟨e1, _⟩ := splitFirst_char_some '<' s a x h1
+      cases h2 : splitFirst ['>'] (s.drop a.length) with
+      | none => rw [h2] at hs; cases hs
+      | some mb =>
+        obtain ⟨m0, b⟩ := mb
+        obtain ⟨e2, _⟩ := splitFirst_char_some '>' _ m0 b h2
+        have hd : s.drop a.length = '<' :: x := by rw [e1]; simp
+        rw [hd] at e2
+        have : '>' ∈ x := by
+          cases m0 with
+          | nil => simp at e2
+          | cons d ds =>
+            simp only [List.cons_append, List.cons.injEq] at e2
+            rw [e2.2]; simp
+        exact h a x e1 this
+
+/-- no complete tag is left: in the result no `<` is followed (anywhere later) by a `>` -/
+theorem stripAll_no_tag_left (s x y : Str) (h : stripAll ['<'] ['>'] s = x ++ '<' :: y) : '>' ∉ y := by
+  have hfix := stripAll_fixpoint ['<'] ['>'] s (by simp)
+  rw [h] at hfix
+  intro hy
+  -- the first `<` of the result lies in `x` or is this one; either way a `>` follows it
+  have hmem : '<' ∈ x ++ '<' :: y := by simp
+  unfold stripStep at hfix
+  cases h1 : splitFirst ['<'] (x ++ '<' :: y) with
+  | none => exact splitFirst_char_none _ _ h1 hmem
+  | some ax =>
+    obtain ⟨a, r⟩ := ax
+    rw [h1] at hfix
+    simp only at hfix
+    obtain ⟨e1, hna⟩ := splitFirst_char_some '<' _ a r h1
+    have hd : (x ++ '<' :: y).drop a.length = '<' :: r := by rw [e1]; simp
+    rw [hd] at hfix
+    have hgt : '>' ∈ '<' :: r := by
+      -- `y` is a suffix of `r`, or this `<` is the first one
+      have : '>' ∈ (x ++ '<' :: y).drop a.length := by
+        have hle : a.length ≤ x.length := by
+          -- `a` has no `<`, and is a prefix of the result, so it ends before the `<` after `x`
+          by_cases hlt : a.length ≤ x.length
+          · exact hlt
+          · exfalso
+            have hx : x.length < a.length := by omega
+            have : (x ++ '<' :: y)[x.length]? = some '<' := by simp
+            rw [e1, List.getElem?_append_left hx] at this
+            exact hna (List.mem_of_getElem? this)
+        rw [List.drop_append_of_le_length hle]
+        exact List.mem_append_right _ (List.mem_cons_of_mem _ hy)
+      rw [hd] at this; exact this
+    cases h2 : splitFirst ['>'] ('<' :: r) with
+    | none => exact splitFirst_char_none _ _ h2 hgt
+    | some mb => rw [h2] at hfix; cases hfix
+
+example : stripAll ['<'] ['>'] "a<b>c<d".toList = "ac<d".toList ∧
+    stripAll "<!--".toList "-->".toList "x<!<!---->--a>b-->y".toList = "xy".toList ∧
+    striptags "<p>a  <!-- <i> -->b</p>\n c ".toList = "a b c".toList := by decide +kernel
+
+/-! ### striptags: whitespace collapse -/
+
+/-- `value.split()`: every word is non-empty and free of whitespace -/
+theorem splitWs_words (s : Str) : ∀ w ∈ splitWs s, w ≠ [] ∧ ∀ c ∈ w, isPySpace c = false :=
+  splitWsAux_words s [] (by simp)
+
+/-- collapsing keeps all non-whitespace text in order -/
+theorem collapse_keeps_text (s : Str) : nonws (collapse s) = nonws s := by
+  unfold collapse
+  rw [nonws_joinWith [' '] (by decide)]
+  have := nonws_splitWsAux s []
+  simpa [splitWs] using this
+
+/-- the collapsed text has the same words; collapsing again changes nothing -/
+theorem collapse_words (s : Str) : splitWs (collapse s) = splitWs s := splitWs_join _ (splitWs_words s)
+
+theorem collapse_idem (s : Str) : collapse (collapse s) = collapse s := by
+  show joinWith [' '] (splitWs (collapse s)) = collapse s
+  rw [collapse_words]; rfl
+
+/-- the only whitespace left is the single plain space between two words: every whitespace character of the result is
+    `' '`, and the result neither starts nor ends with whitespace -/
+theorem collapse_shape (s : Str) :
+    (∀ c ∈ collapse s, isPySpace c = true → c = ' ') ∧
+    (∀ c, (collapse s).head? = some c → isPySpace c = false) ∧
+    (∀ c, (collapse s).getLast? = some c → isPySpace c = false) := by
+  have hw := splitWs_words s
+  unfold collapse
+  refine ⟨?_, ?_, ?_⟩
+  · intro c hc hsp
+    rcases mem_joinWith _ _ _ hc with h | ⟨w, hw', hcw⟩
+    · exact List.mem_singleton.mp h
+    · rw [(hw w hw').2 c hcw] at hsp; cases hsp
+  · intro c hc
+    cases hs : splitWs s with
+    | nil => rw [hs] at hc; cases hc
+    | cons w rest =>
+      rw [hs] at hc hw
+      have h1 := hw w (List.mem_cons_self ..)
+      rw [head?_joinWith _ _ _ h1.1] at hc
+      exact h1.2 c (List.mem_of_head? hc)
+  · intro c hc
+    cases hs : splitWs s with
+    | nil => rw [hs] at hc; cases hc
+    | cons w rest =>
+      rw [hs] at hc hw
+      rw [getLast?_joinWith _ _ (fun w' hw' => (hw w' hw').1) (by simp)] at hc
+      have hmem := List.getLast_mem (l := w :: rest) (by simp)
+      exact (hw _ hmem).2 c (List.mem_of_getLast? hc)
+
+/-- `|striptags` on text without `&`, all together: the result is the collapse of a text `t` obtained from `s` by
+    deletions only (comments first, then tags), in `t` no `<` is followed by a `>`, and the non-whitespace text of the
+    result is a subsequence of that of `s` -/
+theorem striptags_spec (s : Str) :
+    ∃ t, striptags s = collapse t ∧ t.Sublist s ∧ (∀ x y, t = x ++ '<' :: y → '>' ∉ y) ∧
+      (nonws (striptags s)).Sublist (nonws s) := by
+  refine ⟨stripAll ['<'] ['>'] (stripAll ['<', '!', '-', '-'] ['-', '-', '>'] s), rfl,
+    (stripAll_sublist _ _ _).trans (stripAll_sublist _ _ _), fun x y h => stripAll_no_tag_left _ x y h, ?_⟩
+  unfold striptags
+  rw [collapse_keeps_text]
+  exact ((stripAll_sublist _ _ _).trans (stripAll_sublist _ _ _)).filter _
+
+/-- text without `<` only has its whitespace collapsed -/
+theorem striptags_plain (s : Str) (h : '<' ∉ s) : striptags s = collapse s := by
+  unfold striptags
+  have h1 : stripAll ['<', '!', '-', '-'] ['-', '-', '>'] s = s := by
+    rw [stripAll_unfold _ _ _ (by simp)]
+    cases hs : stripStep ['<', '!', '-', '-'] ['-', '-', '>'] s with
+    | none => rfl
+    | some s' =>
+      exfalso
+      unfold stripStep at hs
+      cases h1 : splitFirst ['<', '!', '-', '-'] s with
+      | none => rw [h1] at hs; cases hs
+      | some ax =>
+        have := splitFirst_some _ s ax.1 ax.2 h1
+        apply h; rw [this]; simp
+  rw [h1, stripAll_tag_free s (fun x y hxy => absurd (by rw [hxy]; simp) h)]
+
+/-! ### format (`%s`, `%d`, `%%`) -/
+
+/-- the scanner of the model is "parse, then substitute" -/
+theorem format_eq_spec (fmt : Str) (args : List FmtArg) (segs : List Seg) (h : parseFmt fmt = some segs) :
+    format fmt args = fill segs args := by
+  unfold format
+  fun_induction parseFmt fmt generalizing args segs with
+  | case1 => cases h; cases args <;> rfl
+  | case2 rest ih =>
+    obtain ⟨r, hr, rfl⟩ := Option.map_eq_some_iff.mp h
+    simp only [formatGo, fill]; rw [ih args r hr]
+  | case3 rest ih =>
+    obtain ⟨r, hr, rfl⟩ := Option.map_eq_some_iff.mp h
+    cases args with
+    | nil => rfl
+    | cons a as => simp only [formatGo, fill]; rw [ih as r hr]
+  | case4 rest ih =>
+    obtain ⟨r, hr, rfl⟩ := Option.map_eq_some_iff.mp h
+    cases args with
+    | nil => rfl
+    | cons a as =>
+      simp only [formatGo, fill]
+      cases a.d with
+      | none => rfl
+      | some d => simp only; rw [ih as r hr]
+  | case5 => cases h
+  | case6 c rest h1 h2 h3 h4 ih =>
+    obtain ⟨r, hr, rfl⟩ := Option.map_eq_some_iff.mp h
+    have hlit := formatGo_lit c rest args (fun hc => h4 hc)
+    rw [hlit, ih args r hr]; rfl
+
+
+/-- a successful result means the format string is made of `%s`, `%d`, `%%` and ordinary characters only -/
+theorem format_ok_parses (fmt : Str) (args : List FmtArg) (out : Str) (h : format fmt args = .ok out) :
+    (parseFmt fmt).isSome = true := by
+  unfold format at h
+  fun_induction parseFmt fmt generalizing args out with
+  | case1 => rfl
+  | case2 rest ih =>
+    simp only [formatGo] at h
+    cases hr : formatGo rest args with
+    | ok o => have := ih args o hr; simp_all [Option.isSome_map]
+    | _ => rw [hr] at h; cases h
+  | case3 rest ih =>
+    cases args with
+    | nil => cases h
+    | cons a as =>
+      simp only [formatGo] at h
+      cases hr : formatGo rest as with
+      | ok o => have := ih as o hr; simp_all [Option.isSome_map]
+      | _ => rw [hr] at h; cases h
+  | case4 rest ih =>
+    cases args with
+    | nil => cases h
+    | cons a as =>
+      simp only [formatGo] at h
+      cases hd : a.d with
+      | none => rw [hd] at h; cases h
+      | some d =>
+        rw [hd] at h
+        cases hr : formatGo rest as with
+        | ok o => have := ih as o hr; simp_all [Option.isSome_map]
+        | _ => rw [hr] at h; simp only [FmtRes.cons] at h; cases h
+  | case5 t h1 h2 h3 =>
+    exfalso
+    cases t with
+    | nil => cases args <;> simp [formatGo] at h
+    | cons x xs =>
+      rw [formatGo_oom x xs args (fun e => h1 xs (by rw [e])) (fun e => h2 xs (by rw [e])) (fun e => h3 xs (by rw [e]))] at h
+      cases h
+  | case6 c rest h1 h2 h3 h4 ih =>
+    rw [formatGo_lit c rest args (fun hc => h4 hc)] at h
+    cases hr : formatGo rest args with
+    | ok o => have := ih args o hr; simp_all [Option.isSome_map]
+    | _ => rw [hr] at h; cases h
+
+/-- exactly as many arguments as directives -/
+theorem fill_ok_length (segs : List Seg) (args : List FmtArg) (out : Str) (h : fill segs args = .ok out) :
+    args.length = nDir segs := by
+  fun_induction fill segs args generalizing out with
+  | case1 => rfl
+  | case2 => cases h
+  | case3 c r args ih =>
+    cases hr : fill r args with
+    | ok o => simpa [nDir] using ih o hr
+    | _ => rw [hr] at h; cases h
+  | case4 r args ih =>
+    cases hr : fill r args with
+    | ok o => simpa [nDir] using ih o hr
+    | _ => rw [hr] at h; cases h
+  | case5 => cases h
+  | case6 r a as ih =>
+    cases hr : fill r as with
+    | ok o => simp [nDir, ih o hr]
+    | _ => rw [hr] at h; cases h
+  | case7 => cases h
+  | case8 r a as hd => cases h
+  | case9 r a as d hd ih =>
+    cases hr : fill r as with
+    | ok o => simp [nDir, ih o hr]
+    | _ => rw [hr] at h; cases h
+
+/-- substitution is compositional: formats concatenate, argument lists concatenate, results concatenate -/
+theorem fill_append (a b : List Seg) (xs ys : List FmtArg) (oa ob : Str)
+    (ha : fill a xs = .ok oa) (hb : fill b ys = .ok ob) : fill (a ++ b) (xs ++ ys) = .ok (oa ++ ob) := by
+  fun_induction fill a xs generalizing oa with
+  | case1 => cases ha; simpa using hb
+  | case2 => cases ha
+  | case3 c r args ih =>
+    cases hr : fill r args with
+    | ok o => rw [hr] at ha; cases ha; simp [fill, ih o hr, FmtRes.cons]
+    | _ => rw [hr] at ha; cases ha
+  | case4 r args ih =>
+    cases hr : fill r args with
+    | ok o => rw [hr] at ha; cases ha; simp [fill, ih o hr, FmtRes.cons]
+    | _ => rw [hr] at ha; cases ha
+  | case5 => cases ha
+  | case6 r x as ih =>
+    cases hr : fill r as with
+    | ok o => rw [hr] at ha; cases ha; simp [fill, ih o hr, FmtRes.cons]
+    | _ => rw [hr] at ha; cases ha
+  | case7 => cases ha
+  | case8 r x as hd => cases ha
+  | case9 r x as d hd ih =>
+    cases hr : fill r as with
+    | ok o => rw [hr] at ha; cases ha; simp [fill, hd, ih o hr, FmtRes.cons]
+    | _ => rw [hr] at ha; cases ha
+
+/-- the single pieces: ordinary text is copied, `%%` gives one `%`, `%s` the argument's `str()`, `%d` its number form -/
+theorem fill_pieces (cs : Str) (a : FmtArg) (d : Str) (hd : a.d = some d) :
+    fill (cs.map Seg.lit) [] = .ok cs ∧ fill [.pct] [] = .ok ['%'] ∧ fill [.s] [a] = .ok a.s ∧ fill [.d] [a] = .ok d := by
+  refine ⟨?_, rfl, by simp [fill, FmtRes.cons], by simp [fill, hd, FmtRes.cons]⟩
+  induction cs with
+  | nil => rfl
+  | cons c cs ih => simp [fill, ih, FmtRes.cons]
+
+/-- a format string without `%` and without arguments is returned unchanged -/
+theorem format_literal (fmt : Str) (h : '%' ∉ fmt) : format fmt [] = .ok fmt := by
+  unfold format
+  induction fmt with
+  | nil => rfl
+  | cons c cs ih =>
+    rw [formatGo_lit c cs [] (fun hc => h (hc ▸ List.mem_cons_self ..)), ih (fun hm => h (List.mem_cons_of_mem _ hm))]
+    rfl
+
+example : format "%s, %d%%!".toList [⟨"x".toList, none⟩, ⟨"3".toList, some "3".toList⟩] = .ok "x, 3%!".toList ∧
+    format "%d".toList [⟨"x".toList, none⟩] = .typeError ∧ format "%s".toList [] = .typeError ∧
+    format "a".toList [⟨"x".toList, none⟩] = .typeError ∧ format "50%".toList [] = .valueError ∧
+    parseFmt "%s, %d%%!".toList = some [.s, .lit ',', .lit ' ', .d, .pct, .lit '!'] := by decide
+
 /-! ### int / float -/
 
 /-- `raised ⊆ caught ⇒ no exception leaves the filter`, for any handler lists and any conversion outcomes -/
@@ -679,39 +1019,20 @@ theorem doFloat_escapes (handler : List String) (r : Row) (mro : List String)
     (h : r.flt = .raises mro) (hc : catches handler mro = false) : (doFloat handler r).isRaise = true := by
   unfold doFloat; rw [h]; simp only [hc, Bool.false_eq_true, if_false]; rfl
 
-/-- what `|int` / `|float` do on a row of the measured table, with the handlers read from filters.py -/
-def intOut (r : Row) : ConvOut := doInt intOuterCaught intInnerCaught r
-def floatOut (r : Row) : ConvOut := doFloat floatCaught r
-
-/-- the full-strength statement: for every sampled value class neither filter lets an exception out.
-    FALSE on the present source (finding F7, `Findings/F7.lean` proves the negation). -/
+/-- the full-strength statement: for every sampled value class (row of the measured table: value × base) neither filter
+    lets an exception out — every class raised by `int(x[, base])`, `int(float(x))`, `float(x)` is caught by the handlers
+    read from `do_int` / `do_float`, so a value or the default is returned.  (`intOut`/`floatOut`: Model/FiltStr.lean.) -/
 def ConvertTotal : Prop := ∀ r ∈ rows, (intOut r).isRaise = false ∧ (floatOut r).isRaise = false
 
-/-- the rows on which an exception is known to escape today (finding F7): (filter, sample, exception class).
-    Every entry is `OverflowError`; any other escaping class, or any other sample, breaks the theorem below. -/
-def knownUncaught : List (String × String × String) :=
-  [("int", "float-inf", "OverflowError"), ("int", "float-neginf", "OverflowError"), ("int", "decimal-inf", "OverflowError"),
-   ("float", "hugeint", "OverflowError"), ("float", "hugeint-neg", "OverflowError"),
-   ("float", "hugeint-2pow1024", "OverflowError"), ("float", "int-below-2pow1024", "OverflowError"),
-   ("float", "fraction-huge", "OverflowError")]
-
-/-- an outcome is acceptable if nothing is raised, or it is one of the listed known rows -/
-def acceptable (filt : String) (r : Row) : ConvOut → Bool
-  | .raises c => knownUncaught.contains (filt, r.name, c)
-  | _ => true
-
-/-- counterexample finder (twin of the theorem): rows on which an exception escapes that is not a listed finding -/
-def unexpectedEscapes : List (String × String × Int × ConvOut) :=
-  rows.flatMap fun r =>
-    (if acceptable "int" r (intOut r) then [] else [("int", r.name, r.base, intOut r)]) ++
-    (if acceptable "float" r (floatOut r) then [] else [("float", r.name, r.base, floatOut r)])
-
-/-- `convert_total` up to the known finding: on every row of the measured table (value class × base) every exception
-    class raised by `int(x[, base])`, `int(float(x))`, `float(x)` is caught by the handlers read from `do_int` /
-    `do_float`, and the default is returned — except exactly the listed `OverflowError` rows. -/
-theorem convert_total_except_known :
-    ∀ r ∈ rows, acceptable "int" r (intOut r) = true ∧ acceptable "float" r (floatOut r) = true := by
+/-- `convert_total`, at full strength since the repair of finding F7 (/repo 15bb75e: `OverflowError` is caught): re-proved
+    by `decide` over the regenerated Gen table on every run; a handler that lets any class escape on any row breaks it. -/
+theorem convert_total : ConvertTotal := by
+  unfold ConvertTotal
   decide +kernel
+
+/-- the counterexample finder (served by the driver as `(fs conv-escapes)`; the runner replays its rows on the real
+    code when this stops proving) finds nothing -/
+theorem escapingRows_nil : escapingRows = [] := by decide +kernel
 
 /-- on every row where the conversions themselves fail with a caught class, the result is the default (not a value) -/
 theorem convert_default_on_failure :
@@ -725,6 +1046,10 @@ example : doFloat ["TypeError", "ValueError"]
     ⟨"x", "hugeint", 10, .ok, .raises ["OverflowError", "ArithmeticError"], .raises ["OverflowError"]⟩ = .raises "OverflowError" := by decide
 example : doFloat ["TypeError", "ArithmeticError"]
     ⟨"x", "hugeint", 10, .ok, .raises ["OverflowError", "ArithmeticError"], .raises ["OverflowError"]⟩ = .default := by decide
+-- not vacuous for the formerly failing samples: they are rows of the table, the conversions do raise OverflowError
+example : (rows.any fun r => r.name == "float-inf" && (match r.int1 with | .raises m => m.contains "OverflowError" | .ok => false)) = true ∧
+    (rows.any fun r => r.name == "hugeint" && (match r.flt with | .raises m => m.contains "OverflowError" | .ok => false)) = true := by
+  decide +kernel
 example : (rows.any fun r => floatOut r == .default) = true ∧ (rows.any fun r => intOut r == .default) = true ∧
     (rows.any fun r => intOut r == .value && r.int1 != .ok) = true := by decide +kernel
 
